@@ -167,11 +167,16 @@ Definition check_expand (case : erules * graph pv * observed) : bool :=
   end.
 
 (* ------------------------------------------------------------------ fuse *)
-(* the harness's callbacks: never / always / only when the parent has a payload; `inline`
-   builds a node recording (parent payload, parent outputs, parent output, child payload,
-   child input) with the child's other inputs and the parent's inputs (prefixed by the
-   child input name and "/"); it declines when a child input already has that prefix *)
-Inductive ffun := FNever | FAlways | FPayload.
+(* the harness's callbacks: never / always / only when the parent has a payload / keep;
+   `inline` builds a node recording (parent payload, parent outputs, parent output, child
+   payload, child input) with the child's other inputs and the parent's inputs (prefixed by
+   the child input name and "/"); it declines when a child input already has that prefix.
+   FKeep hands back the child object as it is.
+   The mode says which OBJECT carries the fused node: a new Node (MNew), the child object
+   written in place and returned (MSame), or one or the other depending on the child's
+   name (MMix) -- see Graph/Fuse.v. *)
+Inductive ffun := FNever | FAlways | FPayload | FKeep.
+Inductive fmode := MNew | MSame | MMix.
 
 Definition enc_pay (p : option pv) : pv := match p with None => PSeq true [PStr "N"] | Some x => x end.
 
@@ -184,21 +189,27 @@ Definition inline (pn : node pv) (pout : string) (cur : node pv) (cin : string) 
                                       enc_pay (npay cur); PStr cin]))
                     (others ++ map (fun x => ((pre ++ fst x)%string, snd x)) (nins pn))).
 
-Definition ffun_apply (f : ffun) (pn : node pv) (pout : string) (cur : node pv) (cin : string) : option (node pv) :=
+Definition fmode_inplace (m : fmode) (cur : node pv) : bool :=
+  match m with MNew => false | MSame => true | MMix => Nat.even (String.length (nname cur)) end.
+
+Definition ffun_apply (f : ffun) (m : fmode) (pn : node pv) (pout : string) (cur : node pv) (cin : string)
+  : option (bool * node pv) :=
+  let tag := option_map (fun nd => (fmode_inplace m cur, nd)) in
   match f with
   | FNever => None
-  | FAlways => inline pn pout cur cin
-  | FPayload => match npay pn with None => None | Some _ => inline pn pout cur cin end
+  | FAlways => tag (inline pn pout cur cin)
+  | FPayload => match npay pn with None => None | Some _ => tag (inline pn pout cur cin) end
+  | FKeep => Some (true, cur)
   end.
 
 Definition call_eqb (a b : string * string * string * string) : bool :=
   let '(a1, a2, a3, a4) := a in let '(b1, b2, b3, b4) := b in
   String.eqb a1 b1 && String.eqb a2 b2 && String.eqb a3 b3 && String.eqb a4 b4.
 
-Definition check_fuse (case : ffun * graph pv * observed * list (string * string * string * string)) : bool :=
-  let '(f, g, o, calls) := case in
+Definition check_fuse (case : ffun * fmode * graph pv * observed * list (string * string * string * string)) : bool :=
+  let '(f, m, g, o, calls) := case in
   topob (heap g) &&
-  match fuse_nodes (ffun_apply f) g, o with
+  match fuse_nodes (ffun_apply f m) g, o with
   | Ok (g', calls'), inl og => graph_iso g' og && list_eqb call_eqb calls' calls
   | Err e, inr e' => String.eqb e e'
   | _, _ => false
